@@ -122,3 +122,28 @@ func VH_C12_request(qlen int, alen int) {
 	zzvrt.Cover("reached", err == nil)
 	zzvrt.ObserveInt("sent", len(sent))
 }
+
+// The timeout clause: a call whose answer never arrives returns a timeout error by the client's
+// deadline, also when the caller's own context carries a later deadline (the pool's long-lived
+// contexts).  Time passes only in the blocked select: the model advances it to the earliest deadline
+// among the contexts selected on.  When Request returns, the caller's far deadline has not been reached
+// and the query is unregistered.
+func VH_C12_request_timeout(qlen int, far bool) {
+	ks := zzvrt.NondetBytes("tx-keystream", 4+32+4+32+4+qlen+3+32)
+	c := &Client{timeout: 20 * time.Millisecond, queries: make(map[queryID]chan []byte)}
+	conn := &vServerConn{}
+	c.connections = append(c.connections, &Connection{status: Connected, econn: &encryptedConn{cipher: &vStream{ks: ks}, conn: conn}})
+	parent := context.Background()
+	if far {
+		var cancel context.CancelFunc
+		parent, cancel = context.WithTimeout(parent, 3*time.Second)
+		defer cancel()
+	}
+	q := zzvrt.NondetBytes("query", qlen)
+	got, err := c.Request(parent, q)
+	zzvrt.Assert("unanswered-call-fails", err != nil && got == nil)
+	zzvrt.Assert("returned-by-the-client-deadline", parent.Err() == nil)
+	zzvrt.Assert("sent-once", conn.written == 1)
+	zzvrt.Assert("registry-empty-afterwards", len(c.queries) == 0)
+	zzvrt.Cover("timed-out", err != nil)
+}
